@@ -350,7 +350,10 @@ class LabelFlow:
             # where the process happens to run: an absolute location *and* an environment value (its base name is not
             # "location independent" the way the base name of a path below the input directory is)
             return L({ABS, ENV})
-        if name in ("os.path.realpath", "os.readlink") or short == "resolve":
+        if name == "os.readlink":
+            # the raw text of the link: usually *relative to the link's own directory*, neither absolute nor comparable
+            return L({RES})
+        if name == "os.path.realpath" or short == "resolve":
             # symlinks resolved: no longer comparable with the unresolved input path
             return L({ABS, RES})
         if name in ABS_CALLS:
